@@ -269,7 +269,7 @@ func runExpScenario(sc expScenario, windowSec int) (res expResult) {
 			case m.live && m.deadline != 0 && t0 >= m.deadline+expGuard:
 				if present {
 					bad("exp.late", "%s/%q is still readable at second %d, %d s after its expiry %d", cfg.Colls[ek.c], ek.key, t0, t0-m.deadline, m.deadline)
-					m.deadline = 0 // report once
+					m.live = false // report once
 				} else {
 					m.live = false
 					st, cdevs := Observe(ds, ek.key, []string{"_sync", "_vv"})
